@@ -1,7 +1,7 @@
 (* Net/Reuse.v — model of internal/upstream/transport/reuse_transport.go (ReuseConnTransport):
    one-at-a-time TCP/DoT upstream connections (also the TCP leg of udpWithFallback).
 
-   Small-step labelled transition system whose steps are the atomic actions of the Go code:
+   Small-ru_step labelled transition system whose steps are the atomic actions of the Go code:
 
      caller thread of one ExchangeContext call (record [exch]):
        CGet          top of the retry loop, about to call getIdleConn
@@ -33,21 +33,21 @@
 
    The model mirrors the tree AFTER "fix: a freshly dialled reusable connection is born serving":
    newReusableConn creates the connection with serving = true and a stopped timer, asyncDial does
-   not call exitIdle.  (Before that fix the timer ran from creation and exitIdle's result was
+   not call exitIdle.  (Before that fix the timer ran from creation and exitIdle's result_ru was
    ignored: the enterIdle panic was reachable, see docs/notes/C06.md.)
 
    Merged actions (each merges only thread-local work, or work on an object no other thread can
    reach): dial completion + newReusableConn + registration under t.m (LDialOk); closeIfIdle's
    critical section + its deferred c.c.Close() (LTimerFire; nobody holds a non-serving connection's
-   socket); getIdleConn's loop is split into one step per iteration (finer than the code, which
+   socket); getIdleConn's loop is split into one ru_step per iteration (finer than the code, which
    holds t.m across the loop: more interleavings, so invariants carry over).
 
    No proofs in this file (Net/ReuseProofs.v). *)
 From Mos Require Import Base.Prelude.
 
 Inductive chunk := Whole (q : nat) | Half1 (q : nat) | Half2 (q : nat).
-Inductive result := RMsg (q : nat) | RErr.
-Inductive outcome := OMsg (q : nat) | OErr | OCancel.
+Inductive result_ru := RMsg (q : nat) | RuErr.
+Inductive outcome_ru := OMsg (q : nat) | OErr | OCancel.
 
 (* reusableConn flags + membership in the transport's two sets *)
 Record cflags := mkFl {
@@ -73,48 +73,48 @@ Record conn := mkConn { fl : cflags; io : cio; srv : csrv;
 
 Inductive wpc :=
 | WNone | DDial | DSend (oc : option nat)
-| WWrite (c : nat) | WRead (c : nat) | WSend (c : nat) (r : result)
+| WWrite (c : nat) | WRead (c : nat) | WSend (c : nat) (r : result_ru)
 | WRel1 (c : nat) (ok : bool) | WRel2 (c : nat) (ok : bool).
-Record work := mkWork { w_exch : nat; w_pc : wpc; w_sent : option result (* resChan *) }.
+Record work := mkWork { w_exch : nat; w_pc : wpc; w_sent : option result_ru (* resChan *) }.
 
-Inductive cpc := CNone | CGet | CDialWait (w : nat) | CWait (w : nat) (isnew : bool) | CDone (o : outcome).
+Inductive cpc := CNone | CGet | CDialWait (w : nat) | CWait (w : nat) (isnew : bool) | CDone (o : outcome_ru).
 Record exch := mkExch { x_pc : cpc; x_retry : nat; x_cancel : bool }.
 
-Record state := mkState {
+Record state_ru := mkState {
   t_closed : bool;
   nconn : nat; conns : nat -> conn;
   nexch : nat; exchs : nat -> exch;
   nwork : nat; works : nat -> work;
   panicked : bool }.
 
-Definition upd {A} (f : nat -> A) (k : nat) (v : A) : nat -> A :=
+Definition ru_upd {A} (f : nat -> A) (k : nat) (v : A) : nat -> A :=
   fun i => if Nat.eqb i k then v else f i.
 
 Definition blank_conn : conn :=
   mkConn (mkFl false false false false false false) (mkIo 0 0 false false)
          (mkSrv [] None [] false 0 false) None.
-Definition init : state :=
+Definition ru_init : state_ru :=
   mkState false 0 (fun _ => blank_conn) 0 (fun _ => mkExch CNone 0 false)
           0 (fun _ => mkWork 0 WNone None) false.
 
-Definition set_conn (s : state) (c : nat) (v : conn) : state :=
-  mkState (t_closed s) (nconn s) (upd (conns s) c v) (nexch s) (exchs s) (nwork s) (works s) (panicked s).
-Definition set_work (s : state) (w : nat) (v : work) : state :=
-  mkState (t_closed s) (nconn s) (conns s) (nexch s) (exchs s) (nwork s) (upd (works s) w v) (panicked s).
-Definition set_exch (s : state) (e : nat) (v : exch) : state :=
-  mkState (t_closed s) (nconn s) (conns s) (nexch s) (upd (exchs s) e v) (nwork s) (works s) (panicked s).
-Definition set_panic (s : state) : state :=
+Definition set_conn (s : state_ru) (c : nat) (v : conn) : state_ru :=
+  mkState (t_closed s) (nconn s) (ru_upd (conns s) c v) (nexch s) (exchs s) (nwork s) (works s) (panicked s).
+Definition set_work (s : state_ru) (w : nat) (v : work) : state_ru :=
+  mkState (t_closed s) (nconn s) (conns s) (nexch s) (exchs s) (nwork s) (ru_upd (works s) w v) (panicked s).
+Definition set_exch (s : state_ru) (e : nat) (v : exch) : state_ru :=
+  mkState (t_closed s) (nconn s) (conns s) (nexch s) (ru_upd (exchs s) e v) (nwork s) (works s) (panicked s).
+Definition set_panic (s : state_ru) : state_ru :=
   mkState (t_closed s) (nconn s) (conns s) (nexch s) (exchs s) (nwork s) (works s) true.
 
 Definition set_fl (c : conn) (f : cflags) : conn := mkConn f (io c) (srv c) (c_owner c).
 Definition set_io (c : conn) (i : cio) : conn := mkConn (fl c) i (srv c) (c_owner c).
 Definition set_srv (c : conn) (v : csrv) : conn := mkConn (fl c) (io c) v (c_owner c).
-Definition set_pc (w : work) (p : wpc) : work := mkWork (w_exch w) p (w_sent w).
+Definition ru_set_pc (w : work) (p : wpc) : work := mkWork (w_exch w) p (w_sent w).
 Definition set_xpc (x : exch) (p : cpc) : exch := mkExch p (x_retry x) (x_cancel x).
 
 Fixpoint remove1 (q : nat) (l : list nat) : list nat :=
   match l with [] => [] | x :: r => if Nat.eqb x q then r else x :: remove1 q r end.
-Definition mem (q : nat) (l : list nat) : bool := existsb (Nat.eqb q) l.
+Definition ru_mem (q : nat) (l : list nat) : bool := existsb (Nat.eqb q) l.
 Definition is_some {A} (o : option A) : bool := match o with Some _ => true | None => false end.
 Definition owed (v : csrv) : nat := length (s_unans v) + (if is_some (s_mid v) then 1 else 0).
 
@@ -122,10 +122,10 @@ Definition owed (v : csrv) : nat := length (s_unans v) + (if is_some (s_mid v) t
 Definition fl_close (f : cflags) : cflags :=
   if f_closed f then f else mkFl (f_serving f) true false true (f_inidle f) (f_inconns f).
 
-Definition no_idle (s : state) : bool :=
+Definition no_idle (s : state_ru) : bool :=
   forallb (fun c => negb (f_inidle (fl (conns s c)))) (seq 0 (nconn s)).
 
-Inductive label :=
+Inductive label_ru :=
 | LStart (cancelled : bool)     (* a new ExchangeContext call (id = nexch), ctx possibly done already *)
 | LCancel (e : nat)             (* the caller's ctx ends *)
 | LTClose                       (* ReuseConnTransport.Close *)
@@ -144,16 +144,16 @@ Inductive label :=
 | LTimerFire (c : nat)
 | LSrvWhole (c q : nat) | LSrvHalf1 (c q : nat) | LSrvHalf2 (c : nat) | LSrvAbort (c : nat).
 
-Definition st_start (s : state) (b : bool) : option state :=
+Definition st_start (s : state_ru) (b : bool) : option state_ru :=
   Some (mkState (t_closed s) (nconn s) (conns s) (S (nexch s))
-                (upd (exchs s) (nexch s) (mkExch CGet 0 b)) (nwork s) (works s) (panicked s)).
+                (ru_upd (exchs s) (nexch s) (mkExch CGet 0 b)) (nwork s) (works s) (panicked s)).
 
-Definition st_cancel (s : state) (e : nat) : option state :=
+Definition st_cancel (s : state_ru) (e : nat) : option state_ru :=
   if e <? nexch s then
     let x := exchs s e in Some (set_exch s e (mkExch (x_pc x) (x_retry x) true))
   else None.
 
-Definition st_tclose (s : state) : option state :=
+Definition st_tclose (s : state_ru) : option state_ru :=
   Some (mkState true (nconn s)
           (fun c => let k := conns s c in
                     if f_inconns (fl k)
@@ -163,7 +163,7 @@ Definition st_tclose (s : state) : option state :=
           (nexch s) (exchs s) (nwork s) (works s) (panicked s)).
 
 (* getIdleConn, one loop iteration: delete(idleConns, c); c.exitIdle() *)
-Definition st_getidle (s : state) (e c : nat) : option state :=
+Definition st_getidle (s : state_ru) (e c : nat) : option state_ru :=
   let x := exchs s e in
   match x_pc x with
   | CGet =>
@@ -180,13 +180,13 @@ Definition st_getidle (s : state) (e c : nat) : option state :=
       let w := nwork s in
       let s1 := set_conn s c (mkConn (mkFl true false false false false (f_inconns f)) (io k) (srv k) (Some e)) in
       let s2 := mkState (t_closed s1) (nconn s1) (conns s1) (nexch s1)
-                        (upd (exchs s1) e (set_xpc x (CWait w false)))
-                        (S w) (upd (works s1) w (mkWork e (WWrite c) None)) (panicked s1) in
+                        (ru_upd (exchs s1) e (set_xpc x (CWait w false)))
+                        (S w) (ru_upd (works s1) w (mkWork e (WWrite c) None)) (panicked s1) in
       Some s2
   | _ => None
   end.
 
-Definition st_getnone (s : state) (e : nat) : option state :=
+Definition st_getnone (s : state_ru) (e : nat) : option state_ru :=
   let x := exchs s e in
   match x_pc x with
   | CGet =>
@@ -194,65 +194,65 @@ Definition st_getnone (s : state) (e : nat) : option state :=
     else if no_idle s then
       let w := nwork s in
       Some (mkState (t_closed s) (nconn s) (conns s) (nexch s)
-                    (upd (exchs s) e (set_xpc x (CDialWait w)))
-                    (S w) (upd (works s) w (mkWork e DDial None)) (panicked s))
+                    (ru_upd (exchs s) e (set_xpc x (CDialWait w)))
+                    (S w) (ru_upd (works s) w (mkWork e DDial None)) (panicked s))
     else None
   | _ => None
   end.
 
 (* DialContext returned a conn; newReusableConn (born serving, timer stopped); under t.m: closed? / conns[rc] *)
-Definition st_dialok (s : state) (w : nat) : option state :=
+Definition st_dialok (s : state_ru) (w : nat) : option state_ru :=
   let k := works s w in
   match w_pc k with
   | DDial =>
     let c := nconn s in
     if t_closed s then
       Some (mkState (t_closed s) (S c)
-              (upd (conns s) c (mkConn (mkFl true true false true false false) (mkIo 0 0 false false)
+              (ru_upd (conns s) c (mkConn (mkFl true true false true false false) (mkIo 0 0 false false)
                                        (mkSrv [] None [] false 0 false) (Some (w_exch k))))
-              (nexch s) (exchs s) (nwork s) (upd (works s) w (set_pc k (DSend None))) (panicked s))
+              (nexch s) (exchs s) (nwork s) (ru_upd (works s) w (ru_set_pc k (DSend None))) (panicked s))
     else
       Some (mkState (t_closed s) (S c)
-              (upd (conns s) c (mkConn (mkFl true false false false false true) (mkIo 0 0 false false)
+              (ru_upd (conns s) c (mkConn (mkFl true false false false false true) (mkIo 0 0 false false)
                                        (mkSrv [] None [] false 0 false) (Some (w_exch k))))
-              (nexch s) (exchs s) (nwork s) (upd (works s) w (set_pc k (DSend (Some c)))) (panicked s))
+              (nexch s) (exchs s) (nwork s) (ru_upd (works s) w (ru_set_pc k (DSend (Some c)))) (panicked s))
   | _ => None
   end.
 
-Definition st_dialfail (s : state) (w : nat) : option state :=
+Definition st_dialfail (s : state_ru) (w : nat) : option state_ru :=
   let k := works s w in
   match w_pc k with
-  | DDial => Some (set_work s w (set_pc k (DSend None)))
+  | DDial => Some (set_work s w (ru_set_pc k (DSend None)))
   | _ => None
   end.
 
-Definition st_dialdeliver (s : state) (w : nat) : option state :=
+Definition st_dialdeliver (s : state_ru) (w : nat) : option state_ru :=
   let k := works s w in let e := w_exch k in let x := exchs s e in
   match w_pc k, x_pc x with
   | DSend oc, CDialWait w' =>
     if Nat.eqb w' w then
       match oc with
-      | Some c => Some (set_exch (set_work s w (set_pc k (WWrite c))) e (set_xpc x (CWait w true)))
-      | None => Some (set_exch (set_work s w (set_pc k WNone)) e (set_xpc x (CDone OErr)))
+      | Some c => Some (set_exch (set_work s w (ru_set_pc k (WWrite c))) e (set_xpc x (CWait w true)))
+      | None => Some (set_exch (set_work s w (ru_set_pc k WNone)) e (set_xpc x (CDone OErr)))
       end
     else None
   | _, _ => None
   end.
 
-Definition st_dialabandon (s : state) (w : nat) : option state :=
+Definition st_dialabandon (s : state_ru) (w : nat) : option state_ru :=
   let k := works s w in
   match w_pc k with
   | DSend oc =>
     if x_cancel (exchs s (w_exch k)) then
       match oc with
-      | Some c => Some (set_work s w (set_pc k (WRel1 c true)))
-      | None => Some (set_work s w (set_pc k WNone))
+      | Some c => Some (set_work s w (ru_set_pc k (WRel1 c true)))
+      | None => Some (set_work s w (ru_set_pc k WNone))
       end
     else None
   | _ => None
   end.
 
-Definition st_ctxdone (s : state) (e : nat) : option state :=
+Definition st_ctxdone (s : state_ru) (e : nat) : option state_ru :=
   let x := exchs s e in
   if x_cancel x then
     match x_pc x with
@@ -261,13 +261,13 @@ Definition st_ctxdone (s : state) (e : nat) : option state :=
     end
   else None.
 
-Definition st_recv (s : state) (e : nat) : option state :=
+Definition st_recv (s : state_ru) (e : nat) : option state_ru :=
   let x := exchs s e in
   match x_pc x with
   | CWait w isnew =>
     match w_sent (works s w) with
     | Some (RMsg q) => Some (set_exch s e (set_xpc x (CDone (OMsg q))))
-    | Some RErr =>
+    | Some RuErr =>
       if negb isnew && (x_retry x <=? 5) && negb (x_cancel x)
       then Some (set_exch s e (mkExch CGet (S (x_retry x)) (x_cancel x)))
       else Some (set_exch s e (set_xpc x (CDone OErr)))
@@ -276,7 +276,7 @@ Definition st_recv (s : state) (e : nat) : option state :=
   | _ => None
   end.
 
-Definition st_write (s : state) (w : nat) : option state :=
+Definition st_write (s : state_ru) (w : nat) : option state_ru :=
   let k := works s w in
   match w_pc k with
   | WWrite c =>
@@ -287,22 +287,22 @@ Definition st_write (s : state) (w : nat) : option state :=
                     (s_dirtyq v || (negb (s_aborted v) && is_some (s_mid v))) in
     Some (set_work (set_conn s c (mkConn (fl cn) (mkIo (S (i_written i)) (i_consumed i) (i_partial i) (i_err i))
                                          v' (c_owner cn)))
-                   w (set_pc k (WRead c)))
+                   w (ru_set_pc k (WRead c)))
   | _ => None
   end.
 
 Definition io_fail (i : cio) : cio := mkIo (i_written i) (i_consumed i) (i_partial i) true.
 
-Definition st_writeerr (s : state) (w : nat) : option state :=
+Definition st_writeerr (s : state_ru) (w : nat) : option state_ru :=
   let k := works s w in
   match w_pc k with
   | WWrite c =>
     let cn := conns s c in
-    Some (set_work (set_conn s c (set_io cn (io_fail (io cn)))) w (set_pc k (WSend c RErr)))
+    Some (set_work (set_conn s c (set_io cn (io_fail (io cn)))) w (ru_set_pc k (WSend c RuErr)))
   | _ => None
   end.
 
-Definition st_read (s : state) (w : nat) : option state :=
+Definition st_read (s : state_ru) (w : nat) : option state_ru :=
   let k := works s w in
   match w_pc k with
   | WRead c =>
@@ -313,9 +313,9 @@ Definition st_read (s : state) (w : nat) : option state :=
       let v' := mkSrv (s_unans v) (s_mid v) rest (s_aborted v) (s_maxout v) (s_dirtyq v) in
       let done q := Some (set_work (set_conn s c (mkConn (fl cn) (mkIo (i_written i) (S (i_consumed i)) false (i_err i))
                                                           v' (c_owner cn)))
-                                   w (set_pc k (WSend c (RMsg q)))) in
+                                   w (ru_set_pc k (WSend c (RMsg q)))) in
       let bad := Some (set_work (set_conn s c (mkConn (fl cn) (io_fail i) v' (c_owner cn)))
-                                w (set_pc k (WSend c RErr))) in
+                                w (ru_set_pc k (WSend c RuErr))) in
       match ch with
       | Whole q => if i_partial i then bad else done q
       | Half1 q => if i_partial i then bad
@@ -327,18 +327,18 @@ Definition st_read (s : state) (w : nat) : option state :=
   | _ => None
   end.
 
-Definition st_readerr (s : state) (w : nat) : option state :=
+Definition st_readerr (s : state_ru) (w : nat) : option state_ru :=
   let k := works s w in
   match w_pc k with
   | WRead c =>
     let cn := conns s c in
-    Some (set_work (set_conn s c (set_io cn (io_fail (io cn)))) w (set_pc k (WSend c RErr)))
+    Some (set_work (set_conn s c (set_io cn (io_fail (io cn)))) w (ru_set_pc k (WSend c RuErr)))
   | _ => None
   end.
 
-Definition res_ok (r : result) : bool := match r with RMsg _ => true | RErr => false end.
+Definition res_ok (r : result_ru) : bool := match r with RMsg _ => true | RuErr => false end.
 
-Definition st_sendres (s : state) (w : nat) : option state :=
+Definition st_sendres (s : state_ru) (w : nat) : option state_ru :=
   let k := works s w in
   match w_pc k with
   | WSend c r => Some (set_work s w (mkWork (w_exch k) (WRel1 c (res_ok r)) (Some r)))
@@ -346,7 +346,7 @@ Definition st_sendres (s : state) (w : nat) : option state :=
   end.
 
 (* releaseConn, first half *)
-Definition st_rel1 (s : state) (w : nat) : option state :=
+Definition st_rel1 (s : state_ru) (w : nat) : option state_ru :=
   let k := works s w in
   match w_pc k with
   | WRel1 c ok =>
@@ -354,14 +354,14 @@ Definition st_rel1 (s : state) (w : nat) : option state :=
     if ok then
       if f_serving f then     (* enterIdle: serving = false; idleTimer.Reset *)
         Some (set_work (set_conn s c (set_fl cn (mkFl false (f_closed f) true (f_sock f) (f_inidle f) (f_inconns f))))
-                       w (set_pc k (WRel2 c true)))
+                       w (ru_set_pc k (WRel2 c true)))
       else Some (set_panic s) (* "call enterIdle on a idle connection" *)
-    else Some (set_work (set_conn s c (set_fl cn (fl_close f))) w (set_pc k (WRel2 c false)))
+    else Some (set_work (set_conn s c (set_fl cn (fl_close f))) w (ru_set_pc k (WRel2 c false)))
   | _ => None
   end.
 
 (* releaseConn, second half (under t.m) *)
-Definition st_rel2 (s : state) (w : nat) : option state :=
+Definition st_rel2 (s : state_ru) (w : nat) : option state_ru :=
   let k := works s w in
   match w_pc k with
   | WRel2 c ok =>
@@ -370,12 +370,12 @@ Definition st_rel2 (s : state) (w : nat) : option state :=
       if t_closed s then (if ok then fl_close f else f)
       else if ok then mkFl (f_serving f) (f_closed f) (f_armed f) (f_sock f) true (f_inconns f)
       else mkFl (f_serving f) (f_closed f) (f_armed f) (f_sock f) (f_inidle f) false in
-    Some (set_work (set_conn s c (set_fl cn f')) w (set_pc k WNone))
+    Some (set_work (set_conn s c (set_fl cn f')) w (ru_set_pc k WNone))
   | _ => None
   end.
 
 (* the idle timer fires and closeIfIdle runs *)
-Definition st_timer (s : state) (c : nat) : option state :=
+Definition st_timer (s : state_ru) (c : nat) : option state_ru :=
   let cn := conns s c in let f := fl cn in
   if f_armed f then
     if f_serving f
@@ -383,21 +383,21 @@ Definition st_timer (s : state) (c : nat) : option state :=
     else Some (set_conn s c (set_fl cn (mkFl (f_serving f) true false true (f_inidle f) (f_inconns f))))
   else None.
 
-Definition st_srvwhole (s : state) (c q : nat) : option state :=
+Definition st_srvwhole (s : state_ru) (c q : nat) : option state_ru :=
   let cn := conns s c in let v := srv cn in
-  if negb (s_aborted v) && mem q (s_unans v) && negb (is_some (s_mid v)) then
+  if negb (s_aborted v) && ru_mem q (s_unans v) && negb (is_some (s_mid v)) then
     Some (set_conn s c (set_srv cn (mkSrv (remove1 q (s_unans v)) None (s_inbox v ++ [Whole q])
                                           (s_aborted v) (s_maxout v) (s_dirtyq v))))
   else None.
 
-Definition st_srvhalf1 (s : state) (c q : nat) : option state :=
+Definition st_srvhalf1 (s : state_ru) (c q : nat) : option state_ru :=
   let cn := conns s c in let v := srv cn in
-  if negb (s_aborted v) && mem q (s_unans v) && negb (is_some (s_mid v)) then
+  if negb (s_aborted v) && ru_mem q (s_unans v) && negb (is_some (s_mid v)) then
     Some (set_conn s c (set_srv cn (mkSrv (remove1 q (s_unans v)) (Some q) (s_inbox v ++ [Half1 q])
                                           (s_aborted v) (s_maxout v) (s_dirtyq v))))
   else None.
 
-Definition st_srvhalf2 (s : state) (c : nat) : option state :=
+Definition st_srvhalf2 (s : state_ru) (c : nat) : option state_ru :=
   let cn := conns s c in let v := srv cn in
   match s_mid v with
   | Some q =>
@@ -407,11 +407,11 @@ Definition st_srvhalf2 (s : state) (c : nat) : option state :=
   | None => None
   end.
 
-Definition st_srvabort (s : state) (c : nat) : option state :=
+Definition st_srvabort (s : state_ru) (c : nat) : option state_ru :=
   let cn := conns s c in let v := srv cn in
   Some (set_conn s c (set_srv cn (mkSrv (s_unans v) (s_mid v) (s_inbox v) true (s_maxout v) (s_dirtyq v)))).
 
-Definition step (s : state) (l : label) : option state :=
+Definition ru_step (s : state_ru) (l : label_ru) : option state_ru :=
   if panicked s then None else
   match l with
   | LStart b => st_start s b
@@ -439,24 +439,24 @@ Definition step (s : state) (l : label) : option state :=
   | LSrvAbort c => st_srvabort s c
   end.
 
-Fixpoint steps (s : state) (ls : list label) : option state :=
+Fixpoint steps (s : state_ru) (ls : list label_ru) : option state_ru :=
   match ls with
   | [] => Some s
-  | l :: r => match step s l with Some s' => steps s' r | None => None end
+  | l :: r => match ru_step s l with Some s' => steps s' r | None => None end
   end.
 
-Definition reachable (s : state) : Prop := exists ls, steps init ls = Some s.
+Definition reachable (s : state_ru) : Prop := exists ls, steps ru_init ls = Some s.
 
 (* ------------------------------------------------------------------------------------------
-   Deterministic big-step semantics for quiescent histories (what the harness replays): after
-   every external event all enabled internal actions run, in a fixed order, until nothing is
-   enabled.  Every action taken is a [step] of the system above, so a history is one particular
+   Deterministic big-ru_step semantics for quiescent histories (what the harness replays): after
+   every external event_ru all enabled internal actions run, in a fixed order, until nothing is
+   enabled.  Every action taken is a [ru_step] of the system above, so a history is one particular
    schedule ([run_trace] returns it).
    I/O errors happen only where a loopback TCP connection produces them: a write fails when the
    local socket is closed; a blocked read fails when the peer aborted or the local socket was
    closed, and on EDeadline. *)
 
-Inductive event :=
+Inductive event_ru :=
 | EStart (cancelled : bool)   (* a new exchange; [true]: its ctx is already done (cancel before write) *)
 | ECancel (e : nat)
 | EReply (e : nat)            (* the server sends the whole reply to e's query *)
@@ -474,7 +474,7 @@ Fixpoint find_first (p : nat -> bool) (n : nat) (from : nat) : option nat :=
   | S m => if p from then Some from else find_first p m (S from)
   end.
 
-Definition exch_label (s : state) (e : nat) : option label :=
+Definition exch_label (s : state_ru) (e : nat) : option label_ru :=
   let x := exchs s e in
   match x_pc x with
   | CGet =>
@@ -492,7 +492,7 @@ Definition exch_label (s : state) (e : nat) : option label :=
   | _ => None
   end.
 
-Definition work_label (s : state) (w : nat) : option label :=
+Definition work_label (s : state_ru) (w : nat) : option label_ru :=
   let k := works s w in
   match w_pc k with
   | DDial => Some (LDialOk w)
@@ -519,43 +519,43 @@ Fixpoint first_some {A} (f : nat -> option A) (n : nat) (from : nat) : option A 
   | S m => match f from with Some a => Some a | None => first_some f m (S from) end
   end.
 
-Definition next_label (s : state) : option label :=
+Definition next_label (s : state_ru) : option label_ru :=
   match first_some (exch_label s) (nexch s) 0 with
   | Some l => Some l
   | None => first_some (work_label s) (nwork s) 0
   end.
 
 (* run internal actions to quiescence; the trace (reversed) is accumulated *)
-Fixpoint settle (fuel : nat) (s : state) (tr : list label) : option (state * list label) :=
+Fixpoint settle (fuel : nat) (s : state_ru) (tr : list label_ru) : option (state_ru * list label_ru) :=
   match next_label s with
   | None => Some (s, tr)
   | Some l =>
     match fuel with
     | O => None
-    | S f => match step s l with Some s' => settle f s' (l :: tr) | None => None end
+    | S f => match ru_step s l with Some s' => settle f s' (l :: tr) | None => None end
     end
   end.
 
-Fixpoint do_labels (s : state) (ls : list label) (tr : list label) : option (state * list label) :=
+Fixpoint do_labels (s : state_ru) (ls : list label_ru) (tr : list label_ru) : option (state_ru * list label_ru) :=
   match ls with
   | [] => Some (s, tr)
-  | l :: r => match step s l with Some s' => do_labels s' r (l :: tr) | None => None end
+  | l :: r => match ru_step s l with Some s' => do_labels s' r (l :: tr) | None => None end
   end.
 
 Definition live (cn : conn) : bool := negb (s_aborted (srv cn)) && negb (f_sock (fl cn)).
 
-Definition env_labels (s : state) (ev : event) : list label :=
+Definition env_labels (s : state_ru) (ev : event_ru) : list label_ru :=
   let cs := seq 0 (nconn s) in
   match ev with
   | EStart b => [LStart b]
   | ECancel e => if e <? nexch s then [LCancel e] else []
   | EReply e =>
     match find_first (fun c => let cn := conns s c in
-                               live cn && mem e (s_unans (srv cn)) && negb (is_some (s_mid (srv cn)))) (nconn s) 0 with
+                               live cn && ru_mem e (s_unans (srv cn)) && negb (is_some (s_mid (srv cn)))) (nconn s) 0 with
     | Some c => [LSrvWhole c e] | None => [] end
   | EReplyHalf e =>
     match find_first (fun c => let cn := conns s c in
-                               live cn && mem e (s_unans (srv cn)) && negb (is_some (s_mid (srv cn)))) (nconn s) 0 with
+                               live cn && ru_mem e (s_unans (srv cn)) && negb (is_some (s_mid (srv cn)))) (nconn s) 0 with
     | Some c => [LSrvHalf1 c e] | None => [] end
   | EReplyRest e =>
     match find_first (fun c => let cn := conns s c in
@@ -563,7 +563,7 @@ Definition env_labels (s : state) (ev : event) : list label :=
     | Some c => [LSrvHalf2 c] | None => [] end
   | EAbort e =>
     match find_first (fun c => let cn := conns s c in
-                               live cn && (mem e (s_unans (srv cn)) ||
+                               live cn && (ru_mem e (s_unans (srv cn)) ||
                                            match s_mid (srv cn) with Some q => Nat.eqb q e | None => false end)) (nconn s) 0 with
     | Some c => [LSrvAbort c] | None => [] end
   | EAbortIdle =>
@@ -578,43 +578,43 @@ Definition env_labels (s : state) (ev : event) : list label :=
 
 Definition settle_fuel : nat := 400.
 
-Definition run_event (st : state * list label) (ev : event) : option (state * list label) :=
+Definition run_event (st : state_ru * list label_ru) (ev : event_ru) : option (state_ru * list label_ru) :=
   let (s, tr) := st in
   match do_labels s (env_labels s ev) tr with
   | Some (s1, tr1) => settle settle_fuel s1 tr1
   | None => None
   end.
 
-Fixpoint run_events (st : state * list label) (evs : list event) : option (state * list label) :=
+Fixpoint run_events (st : state_ru * list label_ru) (evs : list event_ru) : option (state_ru * list label_ru) :=
   match evs with
   | [] => Some st
   | ev :: r => match run_event st ev with Some st' => run_events st' r | None => None end
   end.
 
 (* trace in execution order *)
-Definition run_trace (evs : list event) : option (state * list label) :=
-  match run_events (init, []) evs with
+Definition run_trace (evs : list event_ru) : option (state_ru * list label_ru) :=
+  match run_events (ru_init, []) evs with
   | Some (s, tr) => Some (s, rev tr)
   | None => None
   end.
 
-Definition run_history (evs : list event) : option state :=
+Definition run_history (evs : list event_ru) : option state_ru :=
   match run_trace evs with Some (s, _) => Some s | None => None end.
 
 (* ---- observables printed by the model runner ---- *)
-Definition outcomes (s : state) : list cpc := map (fun e => x_pc (exchs s e)) (seq 0 (nexch s)).
+Definition outcomes (s : state_ru) : list cpc := map (fun e => x_pc (exchs s e)) (seq 0 (nexch s)).
 Definition count (p : nat -> bool) (n : nat) : nat := length (filter p (seq 0 n)).
-Definition obs_idle (s : state) : nat := count (fun c => f_inidle (fl (conns s c))) (nconn s).
-Definition obs_conns (s : state) : nat := count (fun c => f_inconns (fl (conns s c))) (nconn s).
-Definition obs_maxout (s : state) : nat :=
+Definition obs_idle (s : state_ru) : nat := count (fun c => f_inidle (fl (conns s c))) (nconn s).
+Definition obs_conns (s : state_ru) : nat := count (fun c => f_inconns (fl (conns s c))) (nconn s).
+Definition obs_maxout (s : state_ru) : nat :=
   fold_right Nat.max 0 (map (fun c => s_maxout (srv (conns s c))) (seq 0 (nconn s))).
-Definition obs_dirty (s : state) : bool :=
+Definition obs_dirty (s : state_ru) : bool :=
   existsb (fun c => s_dirtyq (srv (conns s c))) (seq 0 (nconn s)).
 
 (* executable form of the C06 oracle, evaluated by the model on its own run:
    every returned message is the caller's own; never more than one query owed; no query on a
    half-replied connection; no panic *)
-Definition spec_ok (s : state) : bool :=
+Definition spec_ok (s : state_ru) : bool :=
   negb (panicked s) &&
   forallb (fun e => match x_pc (exchs s e) with CDone (OMsg q) => Nat.eqb q e | _ => true end) (seq 0 (nexch s)) &&
   (obs_maxout s <=? 1) && negb (obs_dirty s) &&
